@@ -490,28 +490,126 @@ func phiClosure(v ssa.Value) map[ssa.Value]bool {
 		if b, ok := x.(*ssa.BinOp); ok && (b.Op == token.AND) {
 			walk(b.X)
 		}
+		// the cursor handed to a helper that returns the advanced cursor ("i, r = qr.skipInnerPrefix(i)")
+		if ch := cursorHelperOf(x); ch != nil {
+			walk(ch.arg)
+		}
 	}
 	walk(v)
 	return out
 }
 
+// cursorHelper: x is result #k of a call of a loop-free trie function h whose result #k is, on every
+// return, computed from its integer parameter prm (the cursor) by additions of session length fields
+// and alignment masks: the call continues the cursor variable of the caller.
+type cursorHelper struct {
+	call *ssa.Call
+	h    *ssa.Function
+	prm  *ssa.Parameter
+	arg  ssa.Value
+	idx  int
+}
+
+func cursorHelperOf(x ssa.Value) *cursorHelper {
+	idx := 0
+	var call *ssa.Call
+	switch y := x.(type) {
+	case *ssa.Extract:
+		call, _ = y.Tuple.(*ssa.Call)
+		idx = y.Index
+	case *ssa.Call:
+		call = y
+	}
+	if call == nil {
+		return nil
+	}
+	h := calleeOf(call)
+	if h == nil || !trieScope(h) || len(h.Blocks) == 0 || hasLoop(h) {
+		return nil
+	}
+	hasSess := false
+	for _, prm := range h.Params {
+		if isSessionPtr(prm) {
+			hasSess = true
+		}
+	}
+	if !hasSess {
+		return nil
+	}
+	var found *ssa.Parameter
+	for _, ret := range returnsOf(h) {
+		if idx >= len(ret.Results) || !isIntType(ret.Results[idx].Type()) {
+			return nil
+		}
+		// base of the returned value: strip "+ field", "& mask"
+		var base func(v ssa.Value, d int) *ssa.Parameter
+		base = func(v ssa.Value, d int) *ssa.Parameter {
+			if d > 6 {
+				return nil
+			}
+			switch z := v.(type) {
+			case *ssa.Parameter:
+				return z
+			case *ssa.BinOp:
+				if z.Op == token.ADD || z.Op == token.AND {
+					if b := base(z.X, d+1); b != nil {
+						return b
+					}
+					if z.Op == token.ADD {
+						return base(z.Y, d+1)
+					}
+				}
+			case *ssa.Phi:
+				for _, ed := range z.Edges {
+					if b := base(ed, d+1); b != nil {
+						return b
+					}
+				}
+			}
+			return nil
+		}
+		b := base(ret.Results[idx], 0)
+		if b == nil || !isIntType(b.Type()) || (found != nil && found != b) {
+			return nil
+		}
+		found = b
+	}
+	if found == nil {
+		return nil
+	}
+	for i, prm := range h.Params {
+		if prm == found && i < len(call.Call.Args) {
+			return &cursorHelper{call: call, h: h, prm: found, arg: call.Call.Args[i], idx: idx}
+		}
+	}
+	return nil
+}
+
+// stepAdvance: an unaligned "cursor + stored step length"; carrier is the value that holds the advanced
+// cursor in the descent itself (the addition, or the result of the helper call that contains it).
+type stepAdvance struct {
+	bin     *ssa.BinOp
+	carrier ssa.Value
+}
+
+func (a stepAdvance) Pos() token.Pos { return a.bin.Pos() }
+
 // stepAdvances: ADD instructions "cursor + <session length field>" where the
 // cursor operand is not aligned by a mask (plain step mode), feeding cursor v.
-func stepAdvances(f *ssa.Function, v ssa.Value) []*ssa.BinOp {
+func stepAdvances(f *ssa.Function, v ssa.Value) []stepAdvance {
 	cl := phiClosure(v)
-	var out []*ssa.BinOp
-	for x := range cl {
-		b, ok := x.(*ssa.BinOp)
-		if !ok || b.Op != token.ADD {
-			continue
+	var out []stepAdvance
+	isLenField := func(y ssa.Value) bool {
+		ld, ok := deref(y)
+		if !ok {
+			return false
 		}
-		isLenField := func(y ssa.Value) bool {
-			ld, ok := deref(y)
-			if !ok {
-				return false
-			}
-			_, fv, fa := fieldOfAddr(ld)
-			return fa != nil && isSessionType(fa.X.Type()) && isIntType(fv.Type()) && fv.Name() == curSess.stepLen
+		_, fv, fa := fieldOfAddr(ld)
+		return fa != nil && isSessionType(fa.X.Type()) && isIntType(fv.Type()) && fv.Name() == curSess.stepLen
+	}
+	unaligned := func(b *ssa.BinOp) bool {
+		if b.Op != token.ADD {
+			return false
 		}
 		var cur ssa.Value
 		if isLenField(b.Y) {
@@ -519,13 +617,28 @@ func stepAdvances(f *ssa.Function, v ssa.Value) []*ssa.BinOp {
 		} else if isLenField(b.X) {
 			cur = b.Y
 		} else {
-			continue
+			return false
 		}
 		// aligned advance (prefix mode): cursor & ^7 + len — exempt (a prefix comparison precedes it)
 		if m, ok := cur.(*ssa.BinOp); ok && m.Op == token.AND {
-			continue
+			return false
 		}
-		out = append(out, b)
+		return true
+	}
+	for x := range cl {
+		if b, ok := x.(*ssa.BinOp); ok && unaligned(b) {
+			out = append(out, stepAdvance{b, b})
+		}
+		// inside a cursor helper: the additions that reach its returned cursor
+		if ch := cursorHelperOf(x); ch != nil {
+			for _, ret := range returnsOf(ch.h) {
+				for y := range phiClosure(ret.Results[ch.idx]) {
+					if b, ok := y.(*ssa.BinOp); ok && unaligned(b) {
+						out = append(out, stepAdvance{b, x})
+					}
+				}
+			}
+		}
 	}
 	sort.Slice(out, func(i, j int) bool { return out[i].Pos() < out[j].Pos() })
 	return out
@@ -534,8 +647,15 @@ func stepAdvances(f *ssa.Function, v ssa.Value) []*ssa.BinOp {
 // overrunGuarded: from the advance, every path (within the iteration) to the
 // lookup call passes through a test of the advanced cursor against the key
 // length with an exiting edge.
-func overrunGuarded(p *Program, e *evaluator, f *ssa.Function, adv *ssa.BinOp, lc lookupCall) string {
+func overrunGuarded(p *Program, e *evaluator, f *ssa.Function, sa stepAdvance, lc lookupCall) string {
 	// values that carry the advanced cursor
+	adv := sa.carrier
+	advBlock := func() *ssa.BasicBlock {
+		if in, ok := adv.(ssa.Instruction); ok {
+			return in.Block()
+		}
+		return f.Blocks[0]
+	}()
 	carries := map[ssa.Value]bool{adv: true}
 	for _, b := range f.Blocks {
 		for _, in := range b.Instrs {
@@ -593,12 +713,12 @@ func overrunGuarded(p *Program, e *evaluator, f *ssa.Function, adv *ssa.BinOp, l
 		}
 	}
 	if len(guards) == 0 {
-		return "the cursor advanced by a stored step at " + p.Pos(adv.Pos()) + " is never compared with the key length before the label lookup at " + p.Pos(lc.call.Pos()) + ": a key shorter than the step matches labels beyond its end"
+		return "the cursor advanced by a stored step at " + p.Pos(sa.Pos()) + " is never compared with the key length before the label lookup at " + p.Pos(lc.call.Pos()) + ": a key shorter than the step matches labels beyond its end"
 	}
 	// every path adv -> lookup (not crossing the loop header) passes a guard
 	header := loopHeaderOf(lc.call.Block())
-	rs := reachableFrom(adv.Block(), func(x *ssa.BasicBlock) bool { return guards[x] || (x == header && x != adv.Block()) })
-	if guards[adv.Block()] {
+	rs := reachableFrom(advBlock, func(x *ssa.BasicBlock) bool { return guards[x] || (x == header && x != advBlock) })
+	if guards[advBlock] {
 		return ""
 	}
 	if rs[lc.call.Block()] && !guards[lc.call.Block()] {
@@ -613,18 +733,43 @@ func overrunGuarded(p *Program, e *evaluator, f *ssa.Function, adv *ssa.BinOp, l
 			if b == lc.call.Block() {
 				return true
 			}
-			if guards[b] || (b == header && b != adv.Block()) {
+			if guards[b] || (b == header && b != advBlock) {
 				return false
 			}
-			for _, s := range b.Succs {
+			// a branch on the session's "has a stored prefix" flag: on the side where it is true the advance
+			// was not a step advance (a prefix comparison was made instead)
+			skip := -1
+			if iff, ok := lastInstr(b).(*ssa.If); ok && sa.carrier != ssa.Value(sa.bin) {
+				c := iff.Cond
+				neg := false
+				for {
+					if u, ok := c.(*ssa.UnOp); ok && u.Op == token.NOT {
+						c, neg = u.X, !neg
+						continue
+					}
+					break
+				}
+				if ld, ok := c.(*ssa.UnOp); ok && ld.Op == token.MUL {
+					if _, fv, fa := fieldOfAddr(ld.X); fa != nil && isSessionPtr(fa.X) && isBoolType(fv.Type()) && stepFlagOf(sa) == fv.Name() {
+						skip = 0
+						if neg {
+							skip = 1
+						}
+					}
+				}
+			}
+			for si, s := range b.Succs {
+				if si == skip {
+					continue
+				}
 				if walk(s) {
 					return true
 				}
 			}
 			return false
 		}
-		if walk(adv.Block()) {
-			return "a path from the step advance at " + p.Pos(adv.Pos()) + " reaches the label lookup at " + p.Pos(lc.call.Pos()) + " without a cursor-vs-key-length test"
+		if walk(advBlock) {
+			return "a path from the step advance at " + p.Pos(sa.Pos()) + " reaches the label lookup at " + p.Pos(lc.call.Pos()) + " without a cursor-vs-key-length test"
 		}
 	}
 	return ""
@@ -636,6 +781,34 @@ func cursorUpdates(p *Program, f *ssa.Function, v ssa.Value) []string {
 	cl := phiClosure(v)
 	e := newEval(p)
 	set := map[string]bool{}
+	// additions inside a cursor helper, its cursor parameter written CUR and its session SESSION
+	for x := range cl {
+		ch := cursorHelperOf(x)
+		if ch == nil {
+			continue
+		}
+		he := newEval(p)
+		for _, ret := range returnsOf(ch.h) {
+			for y := range phiClosure(ret.Results[ch.idx]) {
+				b, ok := y.(*ssa.BinOp)
+				if !ok || b.Op != token.ADD {
+					continue
+				}
+				tt := mapSyms(he.eval(b), func(n string) string {
+					if n == ch.prm.Name() {
+						return "CUR"
+					}
+					for _, prm := range ch.h.Params {
+						if isSessionPtr(prm) && strings.HasPrefix(n, prm.Name()+".") {
+							return "SESSION." + strings.TrimPrefix(n, prm.Name()+".")
+						}
+					}
+					return n
+				})
+				set[tt.String()] = true
+			}
+		}
+	}
 	for x := range cl {
 		b, ok := x.(*ssa.BinOp)
 		if !ok || b.Op != token.ADD {
@@ -1071,4 +1244,45 @@ func checkTailConsistent(p *Program, r *Report) {
 	a, b := strings.Join(sortedKeys(exact), " & "), strings.Join(sortedKeys(three), " & ")
 	r.Check(a == b, "leaf tail compared under the same section tests", p.Pos(getID.Pos()), "both under ["+a+"]",
 		"the exact-match descent compares the tail under ["+a+"], the three-way descent under ["+b+"]: in the modes where these differ Get and Search/RangeGet give different exact-match answers")
+}
+
+// stepFlagOf: for a step advance inside a cursor helper, the boolean session field whose false value
+// governs the advance (the addition sits on the false side of a branch on a load of that field).
+func stepFlagOf(sa stepAdvance) string {
+	b := sa.bin.Block()
+	for d := b; d != nil; d = d.Idom() {
+		id := d.Idom()
+		if id == nil {
+			break
+		}
+		iff, ok := lastInstr(id).(*ssa.If)
+		if !ok || len(d.Preds) != 1 {
+			continue
+		}
+		c := iff.Cond
+		neg := false
+		for {
+			if u, ok := c.(*ssa.UnOp); ok && u.Op == token.NOT {
+				c, neg = u.X, !neg
+				continue
+			}
+			break
+		}
+		ld, ok := c.(*ssa.UnOp)
+		if !ok || ld.Op != token.MUL {
+			continue
+		}
+		_, fv, fa := fieldOfAddr(ld.X)
+		if fa == nil || !isSessionPtr(fa.X) || !isBoolType(fv.Type()) {
+			continue
+		}
+		onFalse := id.Succs[1] == d
+		if neg {
+			onFalse = id.Succs[0] == d
+		}
+		if onFalse {
+			return fv.Name()
+		}
+	}
+	return ""
 }
